@@ -634,6 +634,13 @@ func (e *Env) eval(x ast.Expr) Val {
 		if ty == nil {
 			ty = e.namedType(n.Type)
 		}
+		if ty == nil {
+			if st, ok := n.Type.(*ast.StarExpr); ok {
+				if el := e.namedType(st.X); el != nil {
+					ty = types.NewPointer(el)
+				}
+			}
+		}
 		if ty == nil || v.K != VScalar || t.mode.scalarSort(ty) == "" {
 			e.fail("unsupported type assertion in a contract expression")
 		}
@@ -1023,6 +1030,32 @@ func (e *Env) call(n *ast.CallExpr) Val {
 				e.fail("samebase needs slices")
 			}
 			return scalar(bt, and(eq(a.Sub[0].S, b.Sub[0].S), eq(a.Sub[1].S, b.Sub[1].S)))
+		case "isdyn":
+			// isdyn(x, T): the interface value x is non-nil and its dynamic type is T (T or *T)
+			e.nargs(n, 2)
+			v := e.eval(n.Args[0])
+			var ty types.Type
+			if id2, ok := n.Args[1].(*ast.Ident); ok {
+				if bt2, ok := convNames[id2.Name]; ok {
+					ty = bt2
+				}
+			}
+			if ty == nil {
+				ty = e.namedType(n.Args[1])
+			}
+			if ty == nil {
+				if st, ok := n.Args[1].(*ast.StarExpr); ok {
+					if el := e.namedType(st.X); el != nil {
+						ty = types.NewPointer(el)
+					}
+				}
+			}
+			if ty == nil || v.K != VScalar {
+				e.fail("isdyn(x, T): unsupported operand")
+			}
+			t.declare("iface.nil", "Iface")
+			tyOf := t.declareFun("iface.type", []string{"Iface"}, "Int")
+			return scalar(bt, and(not(eq(v.S, "iface.nil")), eq(sx(tyOf, v.S), t.typeTag(ty))))
 		case "allocated":
 			// allocated(x): the reference x denotes nil or an object that exists now
 			// (it lies at or below the allocation frontier), so anything allocated
